@@ -132,7 +132,26 @@ func c10Gen(t *rapid.T) interface{} {
 		n := lib.IntN(t, 1, 5, "ndocs")
 		for i := 0; i < n; i++ {
 			d := c10Doc{Cat: lib.PickStr(t, []string{"License", "Header", "", "x y"}, "cat"), Name: fmt.Sprintf("D%d", i), Variant: lib.PickStr(t, []string{"license.txt", "", "v"}, "variant")}
-			switch lib.IntN(t, 0, 4, "docKind") {
+			switch lib.IntN(t, 0, 6, "docKind") {
+			case 5, 6: // a few words cut from the input itself: its last, first or some inner k words (k around the q-gram size)
+				f := bytes.Fields(c.Input)
+				if len(f) > 0 {
+					k := lib.IntN(t, 1, 24, "cutWords")
+					if k > len(f) {
+						k = len(f)
+					}
+					from := len(f) - k
+					switch lib.Weighted(t, []int{45, 25, 30}, "cutWhere") {
+					case 1:
+						from = 0
+					case 2:
+						from = lib.IntN(t, 0, len(f)-k, "cutFrom")
+					}
+					d.Text = bytes.Join(f[from:from+k], []byte(" "))
+					if len(d.Text) > 20000 {
+						d.Text = d.Text[:20000]
+					}
+				}
 			case 0: // empty document
 			case 1:
 				d.Text = []byte(lib.PickStr(t, c10Hostile, "docText"))
